@@ -12,6 +12,7 @@ import RichchkModel.Model.Editors
 import RichchkModel.Generated.Consts
 import RichchkModel.Generated.Imports
 import RichchkModel.Model.FileOps
+import RichchkModel.Model.RichEdit
 import RichchkModel.Model.RichEnc
 open Richchk
 
@@ -225,6 +226,126 @@ def opCycle (hex : String) : String :=
       | .error e => "OK " ++ hexOfBytes out ++ " CYCLE2-ERR " ++ toString e
       | .ok out2 => "OK " ++ hexOfBytes out ++ (if out2 = out then " IDEMPOTENT" else " CHANGES-AGAIN")
 
+
+/-! ### `edit` op: token parser for edit histories (harness glue, not used in proofs) -/
+namespace EditParse
+abbrev P (α : Type) := List String → Option (α × List String)
+
+def pNat : P Nat
+  | t :: r => t.toNat?.map (·, r)
+  | [] => none
+def pOptNat : P (Option Nat)
+  | "-" :: r => some (none, r)
+  | t :: r => t.toNat?.map fun n => (some n, r)
+  | [] => none
+def pHex : P Bytes
+  | t :: r => (bytesOfHex t).map (·, r)
+  | [] => none
+def pBits : P (List Bool)
+  | t :: r => some (if t = "-" then [] else t.toList.map (· == '1'), r)
+  | [] => none
+def pBool : P Bool
+  | "1" :: r => some (true, r)
+  | "0" :: r => some (false, r)
+  | _ => none
+def pTok : P String
+  | t :: r => some (t, r)
+  | [] => none
+def pRStr : P RStr
+  | "null" :: r => some (.null, r)
+  | "t" :: h :: r => (bytesOfHex h).map fun b => (.text b, r)
+  | _ => none
+
+def pMany {α} (p : P α) : Nat → P (List α)
+  | 0, ts => some ([], ts)
+  | n+1, ts => match p ts with
+    | none => none
+    | some (x, r) => match pMany p n r with
+      | none => none
+      | some (xs, r') => some (x :: xs, r')
+
+def pCounted {α} (p : P α) : P (List α) := fun ts =>
+  match pNat ts with
+  | none => none
+  | some (n, r) => pMany p n r
+
+def pLoc : P RLoc := fun ts => do
+  let (x1, r) ← pNat ts; let (y1, r) ← pNat r; let (x2, r) ← pNat r; let (y2, r) ← pNat r
+  let (nm, r) ← pRStr r; let (idx, r) ← pOptNat r; let (el, r) ← pBits r; let (uid, r) ← pNat r
+  pure (⟨x1, y1, x2, y2, nm, idx, el, uid⟩, r)
+
+def pSwitch : P RSwitch := fun ts => do
+  let (nm, r) ← pRStr ts; let (idx, r) ← pOptNat r; let (uid, r) ← pNat r
+  pure (⟨nm, idx, uid⟩, r)
+
+def pCuwp : P RCuwp := fun ts => do
+  let (hp, r) ← pNat ts; let (sp, r) ← pNat r; let (ep, r) ← pNat r; let (res, r) ← pNat r; let (hg, r) ← pNat r
+  let (fl, r) ← pBits r; let (vs, r) ← pBits r; let (vu, r) ← pBits r; let (unk, r) ← pBool r
+  let (pad, r) ← pNat r; let (idx, r) ← pOptNat r
+  pure (⟨hp, sp, ep, res, hg, fl, vs, vu, unk, pad, idx⟩, r)
+
+def pVal : P RVal
+  | "num" :: r => (pNat r).map fun (n, r) => (.num n, r)
+  | "enum" :: r => (pNat r).map fun (n, r) => (.enumv n, r)
+  | "loc" :: r => (pLoc r).map fun (l, r) => (.loc l, r)
+  | "str" :: r => (pRStr r).map fun (s, r) => (.str s, r)
+  | "text" :: r => (pHex r).map fun (b, r) => (.text b, r)
+  | "sw" :: r => (pSwitch r).map fun (s, r) => (.sw s, r)
+  | "cuwp" :: r => (pCuwp r).map fun (c, r) => (.cuwp c, r)
+  | "ai" :: r => (pHex r).map fun (b, r) => (.ai b, r)
+  | "optnum" :: r => (pOptNat r).map fun (n, r) => (.optNum n, r)
+  | _ => none
+
+def pArg : P (String × RVal) := fun ts => do
+  let (nm, r) ← pTok ts; let (v, r) ← pVal r
+  pure ((nm, v), r)
+
+def pEntry : P REntry
+  | "raw" :: r => (pCounted pNat r).map fun (vs, r) => (.raw vs, r)
+  | "rich" :: r => do
+    let (id, r) ← pNat r; let (args, r) ← pCounted pArg r; let (fl, r) ← pBits r
+    pure (.rich id args fl, r)
+  | _ => none
+
+def pTrigger : P RTrigger
+  | "trig" :: r => do
+    let (ps, r) ← pCounted pNat r; let (cs, r) ← pCounted pEntry r; let (as, r) ← pCounted pEntry r
+    pure (⟨cs, as, ps⟩, r)
+  | _ => none
+
+def pWeapon : P (Nat × Nat × Nat) := fun ts => do
+  let (w, r) ← pNat ts; let (b, r) ← pNat r; let (u, r) ← pNat r
+  pure ((w, b, u), r)
+
+def pUnit : P RUnit := fun ts => do
+  let (id, r) ← pNat ts; let (hn, r) ← pNat r; let (hd, r) ← pNat r; let (sh, r) ← pNat r; let (ar, r) ← pNat r
+  let (bt, r) ← pNat r; let (mi, r) ← pNat r; let (ga, r) ← pNat r; let (nm, r) ← pRStr r
+  let (ws, r) ← pCounted pWeapon r; let (ud, r) ← pBool r
+  pure (⟨id, ⟨hn, hd⟩, sh, ar, bt, mi, ga, nm, ws, ud⟩, r)
+
+def pEdit : P Edit
+  | "addtrigs" :: r => (pCounted pTrigger r).map fun (ts, r) => (.addTriggers ts, r)
+  | "upsert" :: r => (pUnit r).map fun (u, r) => (.upsertUnit u, r)
+  | "addwavs" :: r => (pCounted pHex r).map fun (ps, r) => (.addWavs ps, r)
+  | "reload" :: r => some (.reload, r)
+  | _ => none
+
+partial def pEdits (ts : List String) (acc : List Edit) : Option (List Edit) :=
+  match ts with
+  | [] => some acc.reverse
+  | _ => match pEdit ts with
+    | none => none
+    | some (e, r) => pEdits r (e :: acc)
+end EditParse
+
+def opEdit (hex : String) (toks : List String) : String :=
+  match bytesOfHex hex, EditParse.pEdits toks [] with
+  | some bs, some edits =>
+    match editRun richCfg Generated.encTable bs edits with
+    | .error e => "ERR " ++ toString e
+    | .ok out => "OK " ++ hexOfBytes out
+  | _, _ => "bad-op"
+
 def opTrigRow (kind idStr : String) : String :=
   match idStr.toNat? with
   | some n =>
@@ -245,6 +366,7 @@ def step (line : String) : String :=
   | ["flags", nm, n] => opFlags nm n
   | ["trigrow", k, n] => opTrigRow k n
   | ["cycle", h] => opCycle h
+  | "edit" :: h :: toks => opEdit h toks
   | ["import1", e] => opImport1 e
   | ["wavms", f, r] => (match f.toNat?, r.toNat? with | some f, some r => (if r = 0 then "ERR other" else toString (wavDurationMs f r)) | _, _ => "bad-op")
   | ["alloc", k, t, b] => opAlloc k t b
